@@ -8,10 +8,10 @@ NOTE = 'Trusted: pyvc encoding of the Python subset (cross-checked on every run 
 
 CLAIMED = {
  'C01': ('other',
-         'Decoding contract (returns, final, feasible, admitted architecture) evaluated at run time on every vector of the declared space of every corpus graph for both encoders (bounded, exhaustive per graph); the kernel functions that merge fixed values and agree enumeration with decoding (ApplyIterSpec, _get_all_des_var_values) are proved for all inputs.',
+         'Decoding contract (returns, final, feasible, admitted architecture) evaluated at run time on every vector of the declared space of every corpus graph for both encoders (bounded, exhaustive per graph). Proved for all inputs: the kernels on the decode path that are within reach (ApplyIterSpec.__contains__, _get_all_des_var_values, vector clamps of the connection encoders, the existence-infeasibility mask and variable index ranges of _get_des_vars, three segments of GraphProcessor.get_graph, the neighbourhood generator of the fast encoder, the analyzer frame clauses).',
          NOTE, TECH),
  'C02': ('other',
-         'Closure/minimality of the confirmed-node traversal is proved for all graphs (deductive); instance = closure, order independence and feasible-leaf set are contracts on get_for_apply_selection_choice evaluated along all choice orders of the corpus (bounded).',
+         'Proved for all graphs: closure and minimality of the confirmed-node traversal, exactness of get_non_confirmed_nodes, and the edge/node bookkeeping of get_mod_apply_selection_choice up to its incompatibility step (origin->option edges added, choice node and unselected option edges removed, zero-option marker). Instance = closure, order independence and the feasible-leaf set are contracts on get_for_apply_selection_choice evaluated along all choice orders of the corpus (bounded); the recursive derived-edge walks are assumed callees.',
          NOTE, TECH),
  'C03': ('other',
          'Clamp, fixed-vector and activeness kernels of the connection encoders are proved (correct_vector_size/bounds, _correct_is_active); canonical-fixed-point and vector-describes-instance clauses are run-time contracts over the full declared space of every corpus graph (bounded).',
@@ -23,7 +23,7 @@ CLAIMED = {
          'History-independence: after every operation history (length 2 quick / 3 thorough over decode, enumerate, statistics, mutate instance, pickle, fix, free) the processor must be observationally equal to a fresh one (bounded, exhaustive over the history alphabet); frame clauses of the analyzer proved where reached.',
          NOTE, TECH),
  'C06': ('other',
-         'The incompatibility test on confirmed nodes is under deductive contract; enforcement and no-over-pruning are contracts evaluated on every node of the choice tree of the INC corpus (bounded).',
+         'Proved for all graphs: the confirmed-pair test (get_confirmed_incompatibility_edges), the first half of get_mod_nodes_remove_incompatibilities (which nodes go, when the graph is infeasible) and the upstream search get_incompatibility_deriving_nodes (nothing that necessarily derives the target is missed, nothing else is collected). Enforcement, no-over-pruning and infeasible-stays-infeasible are contracts evaluated on every node of the choice tree of the INC corpus (bounded).',
          NOTE, TECH),
  'C07': ('other',
          'Activeness/imputation kernel (_correct_is_active, inactive canonical value, get_graph tail) proved; agreement between enumeration, create=True/False and corrected raw vectors is a run-time contract over all vectors of the corpus (bounded).',
@@ -38,28 +38,28 @@ CLAIMED = {
          'Totality/range/fixed-point/onto/listing clauses as run-time contracts for every registry encoder x imputer over the full vector space [-1..n_opts] of enumerated settings (bounded); vector-size and clamp kernels proved.',
          NOTE, TECH),
  'C11': ('other',
-         'Connection sets offered per selection scenario = brute-force valid sets; applied set yields precisely those edges (bounded); connector degree functions under deductive contract where reached.',
+         'Proved for all inputs: get_mod_apply_connection_choice adds exactly the given connections (parallel ones as keyed edges), removes the choice node and exactly the exclusion / tie edges (with get_excluded_edges and get_deriving_edges under their own contracts); the exclusion-pair remapping per existence pattern. Connection sets offered per selection scenario = brute-force valid sets and decoded sets valid for the present connectors are bounded contracts over the CONN corpus.',
          NOTE, TECH),
  'C13': ('other',
-         'Index functions checked exhaustively on the bound the property names (all rows <=3 columns over -1..3) and offered architectures = reference for both encoders (bounded); removed-option function under deductive contract where reached.',
+         'Proved: the row predicates of get_valid_idx_combinations (non-decreasing / strictly increasing), get_constraint_pre_removed_options (a PERMUTATION is only pruned when unsatisfiable; UNORDERED_NOREPL removes only unreachable indices), linked design-variable propagation of DSG.set_des_var_value. Index functions checked exhaustively on the bound the property names and offered architectures = reference for both encoders (bounded); get_constraint_removed_options stays bounded (draft contract undecided).',
          NOTE, TECH),
  'C14': ('other',
-         'Fast-encoder soundness/onto/valid-unchanged as run-time contracts over the full declared space (bounded); neighbourhood iteration kernel under deductive contract where reached.',
+         'Fast-encoder soundness/onto/valid-unchanged as run-time contracts over the full declared space, plus independence from other processors of the same process (bounded); the neighbourhood generator _iter_values is proved (current value first, every value of the range tried).',
          NOTE, TECH),
  'C15': ('other',
-         'fix/free sequences compared with filtering the unfixed enumeration and with a fresh processor (bounded); bookkeeping functions (fix_des_var, _get_all_des_var_values) under deductive contract where reached.',
+         'Proved: fix_des_var / is_fixed / fixed_value bookkeeping, _get_all_des_var_values (fixed values merged in order), _update_comb_fixed_mask (fixed choices keyed by choice index; the stored mask is always the answer for the current fixed choices), frame clauses of the analyzer. fix/free sequences compared with filtering the unfixed enumeration and with a fresh processor (bounded).',
          NOTE, TECH),
  'C16': ('other',
-         'Clamp/report clauses of DesignVariableNode.correct_value proved for all inputs (deductive); existence coverage and linked propagation are run-time contracts on get_graph / set_des_var_value over the DV corpus (bounded).',
+         'Proved for all inputs: DesignVariableNode.correct_value (clamp, integrality, fraction), DSG.set_des_var_value (stored value in domain, linked nodes clamped to their own range / same relative position), the design-variable value segment and the imputation tail of get_graph. Existence coverage over whole architectures is a run-time contract over the DV corpus (bounded).',
          NOTE, TECH),
  'C17': ('proof',
          'Every function between the metric nodes and the evaluation result (_can_be_objective, _can_be_constraint, _get_metrics, _categorize_metrics, _choose_metric_type, Objective/Constraint.from_metric_node and __init__, DSGEvaluator.evaluate) is under contract; the clauses of the property statement are postconditions and all generated obligations are discharged by z3/cvc5 for all inputs. The link permanent node = exists in every architecture is an assumption corroborated by a bounded run-time contract.',
          NOTE, TECH),
  'C18': ('exploration',
-         'hash/equality/fingerprint compare Python hash() values: no contract within reach of an SMT-based verifier states or decides them. Bounded only: copy/edit/pickle/export contracts over the corpus; hash-seed sweep in subprocesses in the thorough tier.',
+         'hash/equality/fingerprint compare Python hash() values: no contract within reach of an SMT-based verifier states or decides them. Bounded only: copy/edit/pickle/export contracts over the corpus, same variables and same mapping for copies and reordered rebuilds; hash-seed sweep with pickled graphs from subprocesses in the thorough tier.',
          NOTE, TECH),
  'C20': ('other',
-         'Mapped option taken / rejected configurations as run-time contracts over all architectures of the corpus sources (bounded); resolve functions under deductive contract where reached.',
+         'Proved: SupDSG.initialize_choices (duplicate / unmapped checks), SupDSG.resolve (non-final or infeasible source must raise; mappings applied in order), SupExistenceMapping.resolve (first existing source node decides). SupSelChoiceOptionMapping.resolve and the whole-resolution clauses are run-time contracts over all architectures of the corpus sources (bounded).',
          NOTE, TECH),
 }
 
